@@ -189,6 +189,14 @@ def oracle_file(meta, ops, res):
                 return ("torn file: completed entries not all intact and in order with at most one damaged",
                         {"op": "FileHistory.torn" if which == 0 else "FileHistory.torn_then_append", "family": "completed-entries"},
                         "cut at byte %d (k=%d complete): %r" % (n, k, [unS(x) for x in r]))
+            if len(rest) == k + 1 and k < len(es):
+                # C13_torn_damaged_prefix / C13_torn_then_append_damaged: the one extra string is a prefix of the entry
+                # that was being written (after appends: possibly followed by one U+FFFD)
+                dmg, ent = rest[0], es[k]
+                if not (dmg == ent[:len(dmg)] or (which == 1 and es2 and dmg and dmg[-1] == 0xFFFD and dmg[:-1] == ent[:len(dmg) - 1])):
+                    return ("torn file: the damaged string is not a prefix of the entry that was being written",
+                            {"op": "FileHistory.torn" if which == 0 else "FileHistory.torn_then_append", "family": "damaged-prefix"},
+                            "cut at byte %d: damaged %r, entry being written %r" % (n, unS(dmg), unS(ent)))
             if n == offs[k] and len(rest) != k:
                 return ("cut between records but an extra string appeared", {"op": "FileHistory.torn", "family": "extra"}, "cut at byte %d" % n)
         return None
@@ -886,7 +894,7 @@ def gen_schedules(chk):
     res = run_model("c13", enum_cases, shards=len(enum_cases))
     scheds = []
     dist = {}
-    budget = 12000 if thorough else 500
+    budget = 8000 if thorough else 500
     for (s0, pool, maxc, fuel), r in zip(enum_params, res):
         if not isinstance(r, list) or r == [-999] or r == ["MODEL-NO-OUTPUT"]:
             chk.note("model enumerator failed for %r" % ([s0, pool, maxc, fuel],))
@@ -899,7 +907,7 @@ def gen_schedules(chk):
         scheds += [(s0, sch) for sch in pick if sch]
     # guided random walks (deeper)
     walk_cases, walk_meta = [], []
-    for _ in range(2500 if thorough else 150):
+    for _ in range(1500 if thorough else 150):
         s0 = [S(x) for x in rng.sample(["a", "b", "c", "d", "e"], rng.randint(0, 4))]
         pool = [S(x) for x in ["N1", "N2", "N3"][:rng.randint(0, 3)]]
         maxc = rng.randint(1, 3)
@@ -927,7 +935,7 @@ def gen_event_schedules(chk):
     params = [([a], 2, 13), ([a, b], 2, 12), ([], 2, 9)] + ([([a], 3, 12)] if thorough else [])
     res = run_model("c13", [[8, s0, maxc, fuel] for s0, maxc, fuel in params], shards=1)
     scheds, dist = [], {}
-    per = 900 if thorough else 60
+    per = 500 if thorough else 60
     for (s0, maxc, fuel), r in zip(params, res):
         if not isinstance(r, list) or r == [-999] or r == ["MODEL-NO-OUTPUT"]:
             chk.note("model event-schedule enumerator failed for %r" % ([s0, maxc, fuel],))
@@ -937,7 +945,7 @@ def gen_event_schedules(chk):
         dist["eenum S0=%d maxc=%d depth=%d" % (len(s0), maxc, fuel)] = {"enumerated": len(r), "replayed": len(pick)}
         scheds += [(s0, sch) for sch in pick if sch]
     walks = [[9, [S(x) for x in rng.sample(["a", "b", "c"], rng.randint(0, 3))], rng.randint(2, 3),
-              [rng.randint(0, 11) for _ in range(rng.randint(8, 26))]] for _ in range(1200 if thorough else 60)]
+              [rng.randint(0, 11) for _ in range(rng.randint(8, 26))]] for _ in range(600 if thorough else 60)]
     wres = run_model("c13", walks)
     nw = 0
     for c, r in zip(walks, wres):
@@ -1012,7 +1020,7 @@ def gen_fine_schedules(chk):
     if thorough:
         params = [([a], [S("N1")], [S("F1")], 1, 10), ([a], [], [], 2, 11), ([a, b], [S("N1")], [], 1, 11), ([a], [], [S("F1")], 2, 9)]
     res = run_model("c13", [[12, s0, p1, p2, maxc, fuel] for s0, p1, p2, maxc, fuel in params], shards=len(params))
-    per = 1500 if thorough else 50
+    per = 600 if thorough else 50
     for (s0, p1, p2, maxc, fuel), r in zip(params, res):
         if not isinstance(r, list) or r == [-999] or r == ["MODEL-NO-OUTPUT"]:
             chk.note("model fine-schedule enumerator failed for %r" % ([s0, p1, p2, maxc, fuel],))
@@ -1022,7 +1030,7 @@ def gen_fine_schedules(chk):
         scheds += [(s0, sch) for sch in pick if sch]
     # family 3: guided walks
     walks = [[13, [S(x) for x in rng.sample(["a", "b", "c"], rng.randint(0, 3))], own[:rng.randint(0, 2)], foreign[:rng.randint(0, 2)],
-              rng.randint(1, 3), [rng.randint(0, 23) for _ in range(rng.randint(8, 30))]] for _ in range(1500 if thorough else 60)]
+              rng.randint(1, 3), [rng.randint(0, 23) for _ in range(rng.randint(8, 30))]] for _ in range(700 if thorough else 60)]
     wres = run_model("c13", walks)
     nw = 0
     for c, r in zip(walks, wres):
@@ -1164,7 +1172,7 @@ def _main(chk, pr, runner, rep):
     # its lock region while those steps run (what follows the lock region in load() sees the later state)
     nheld = 0
     for s0, labels in scheds:
-        if nheld >= (2500 if chk.tier == "thorough" else 120) or rep.hangs >= 8:
+        if nheld >= (1200 if chk.tier == "thorough" else 120) or rep.hangs >= 8:
             break
         holds = [j for j in range(len(labels) - 1) if labels[j][0] == 3 and labels[j + 1][0] == 1]
         if not holds:
